@@ -3,7 +3,8 @@
 PANIC, ALLOC, REC and read-to-end obligations over everything reachable from the
 decode entry points inside erltf (plus the receive-path glue in edp_client).
 """
-from ..core import callee_of, callee_names
+from ..core import callee_of, callee_names, is_call_to
+from ..ranges import canon
 from ..families import check_panics, check_allocs, check_read_to_end, check_recursion, check_casts
 
 ENTRY = ['erltf::decoder::decode', 'erltf::decoder::decode_with_trailing', 'erltf::decoder::decode_raw_term',
@@ -75,6 +76,38 @@ def run(ctx):
         check_panics(ctx, B, 'C02.1-no-panic', reviewed=REVIEWED_PANIC)
         check_allocs(ctx, B, 'C02.2-alloc-bounded', reviewed=REVIEWED_ALLOC)
         n_rte += check_read_to_end(ctx, B, 'C02.4-inflate-bounded')
+
+    # premise of the reviewed indexing in Atom::new: every index listed in COMMON_ATOMS exists in CACHED_ATOMS (re-established on every run)
+    ctx.rule('C02.1-atom-table-premise', 'Atom::new indexes CACHED_ATOMS with the positions listed in COMMON_ATOMS: every listed position exists (and holds the same text), otherwise decoding that atom panics', floor=1)
+    from ..etf import check_atom_tables
+    check_atom_tables(ctx, 'C02.1-atom-table-premise')
+
+    # premises of the other reviewed entries, re-established from the MIR
+    ctx.rule('C02.1-reviewed-premises', 'the facts the reviewed panic entries rest on still hold: the buffer sliced by total_in() is the very buffer the inflater reads from; '
+             'in parse_local_ext the nested term is parsed from what be_u64 left of the function\'s own input', floor=2)
+    PCB = P.B('erltf::decoder::parse_compressed')
+    if PCB is not None:
+        news = [t for bb, t in PCB.calls() if (callee_of(t)[0] or '').endswith('ZlibDecoder::<R>::new')]
+        idx = [t for bb, t in PCB.calls() if (callee_of(t)[0] or '').endswith('::index') and 'total_in' in str(canon(PCB, t['args'][1]) if len(t['args']) > 1 else '') + str(PCB.origin(t['args'][1]) if len(t['args']) > 1 else '')]
+        from ..ranges import canon as _c
+        if len(news) == 1 and idx and all(_c(PCB, t['args'][0]) == _c(PCB, news[0]['args'][0]) for t in idx):
+            ctx.ok('C02.1-reviewed-premises', 'parse_compressed:total_in', 'rest[total_in()..] slices the buffer handed to ZlibDecoder::new')
+        elif not idx:
+            ctx.ok('C02.1-reviewed-premises', 'parse_compressed:total_in', 'no slice by total_in() any more (nothing to review)')
+        else:
+            ctx.bad('C02.1-reviewed-premises', 'parse_compressed:total_in', 'a buffer other than the one the inflater reads from is sliced by total_in(): the count of consumed bytes is no bound for it',
+                    ctx.where(PCB), key='PREMISE:erltf::decoder::parse_compressed:total_in-buffer')
+    PLB = P.B('erltf::decoder::parse_local_ext')
+    if PLB is not None:
+        pts = [t for bb, t in PLB.calls() if is_call_to(t, 'erltf::decoder::parse_term')]
+        hs = [(bb, t) for bb, t in PLB.calls() if (callee_of(t)[0] or '').endswith('be_u64')]
+        from ..ranges import canon as _c
+        good = len(pts) == 1 and len(hs) == 1 and PLB.origin(hs[0][1]['args'][0]) == ('arg', 1, ()) and 'be_u64' in str(_c(PLB, pts[0]['args'][0])) and "'0'" in str(_c(PLB, pts[0]['args'][0]))
+        if good:
+            ctx.ok('C02.1-reviewed-premises', 'parse_local_ext:nested-input', 'the nested term is parsed from the remainder of be_u64(input)')
+        else:
+            ctx.bad('C02.1-reviewed-premises', 'parse_local_ext:nested-input', 'the nested term is not parsed from what be_u64 left of the input: the reviewed bound 8 + consumed <= start.len() has lost its premise',
+                    ctx.where(PLB), key='PREMISE:erltf::decoder::parse_local_ext:nested-input')
 
     ctx.rule('C02.3-recursion-bounded', 'every recursive cycle reachable from a decode entry point passes a depth guard', floor=2)
     check_recursion(ctx, P, roots, 'C02.3-recursion-bounded', crate='erltf')
